@@ -9,8 +9,8 @@ import (
 
 	"cosmossdk.io/store/rootmulti"
 	storetypes "cosmossdk.io/store/types"
-	"github.com/cosmos/gogoproto/proto"
 	sdk "github.com/cosmos/cosmos-sdk/types"
+	"github.com/cosmos/gogoproto/proto"
 	consensustypes "github.com/palomachain/paloma/v2/x/consensus/types"
 	evmtypes "github.com/palomachain/paloma/v2/x/evm/types"
 	skywaytypes "github.com/palomachain/paloma/v2/x/skyway/types"
@@ -21,13 +21,13 @@ import (
 // (attestation votes, per-validator parts of a queued consensus message).
 // id = store "/" hex(key) [ "#" part ]
 type rec struct {
-	Store string
-	Key   []byte
-	Part  string // "" for a whole stored value
-	Val   []byte
-	Attr  []byte // bytes searched for identities (parts of split values only)
+	Store    string
+	Key      []byte
+	Part     string // "" for a whole stored value
+	Val      []byte
+	Attr     []byte // bytes searched for identities (parts of split values only)
 	explicit bool
-	Kind  string
+	Kind     string
 }
 
 func (r *rec) id() string {
@@ -315,24 +315,24 @@ func (p *principal) in(hay, hayLower []byte) bool {
 // governance-controlled record families (explicit list; records are attributed
 // to G in addition to any principal found by search)
 var govKinds = map[string]bool{
-	"evm/chain-info":                      true,
-	"evm/smart-contract-deployment":       true,
-	"evm/smart-contracts":                 true,
-	"evm/latest-smart-contract":           true,
-	"skyway/bridge-tax":                   true,
-	"skyway/bridge-transfer-limit":        true,
-	"skyway/light-node-sale-contracts":    true,
-	"skyway/last-observed-event-nonce":    true,
-	"skyway/last-observed-eth-height":     true,
-	"skyway/latest-compass-id":            true,
-	"skyway/replenished-grains":           true,
-	"skyway/0x01":                         true, // params
-	"valset/pigeon-requirements":          true,
-	"treasury/treasury":                   true, // community / security fee settings
+	"evm/chain-info":                            true,
+	"evm/smart-contract-deployment":             true,
+	"evm/smart-contracts":                       true,
+	"evm/latest-smart-contract":                 true,
+	"skyway/bridge-tax":                         true,
+	"skyway/bridge-transfer-limit":              true,
+	"skyway/light-node-sale-contracts":          true,
+	"skyway/last-observed-event-nonce":          true,
+	"skyway/last-observed-eth-height":           true,
+	"skyway/latest-compass-id":                  true,
+	"skyway/replenished-grains":                 true,
+	"skyway/0x01":                               true, // params
+	"valset/pigeon-requirements":                true,
+	"treasury/treasury":                         true, // community / security fee settings
 	"paloma-store/light-node-client-feegranter": true,
 	"paloma-store/light-node-client-funders":    true,
-	"bank/0x05":                           true, // bank params
-	"acc/0x00":                            true, // auth params
+	"bank/0x05":                                 true, // bank params
+	"acc/0x00":                                  true, // auth params
 }
 
 func (e *env) owners(r *rec) map[string]bool {
